@@ -119,7 +119,8 @@ fn b64(bytes: &[u8]) -> String {
   base64::encode(bytes)
 }
 
-const MALFORMED: [&str; 47] = [
+const MALFORMED: [&str; 48] = [
+  "tck_odd_input_shape",
   "tck_number_with_nul",
   "add_b64_other_spelling",
   "add_b64_short_text",
@@ -428,6 +429,16 @@ fn build_request(s: &Setup, r: &Value) -> Built {
             ),
           ]),
         ),
+        "many" => {
+          // the expectation comes from evaluating the expression directly, so the number has to be writable as a
+          // FEEL literal (no scientific notation)
+          let plain = if pstr(r, "n").contains(|c| c == 'e' || c == 'E') || pstr(r, "n").is_empty() { Val::Num("7".to_string()) } else { nv.clone() };
+          match evaluated_directly(MANY_EXPRESSION, &[("s", &sv), ("n", &plain), ("b", &bv)]) {
+            Some(expected) => ("many".into(), vec![("s", sv.clone()), ("n", plain.clone()), ("b", bv.clone())], expected),
+            // not evaluable here (say, a number beyond the precision): fall back to the plain echo
+            None => ("echo_s".into(), vec![("s", sv.clone())], sv.clone()),
+          }
+        }
         "keys" => (
           "odd_keys".into(),
           vec![("s", sv.clone()), ("n", nv.clone()), ("b", bv.clone())],
@@ -643,6 +654,30 @@ fn build_request(s: &Setup, r: &Value) -> Built {
           op: Op::EvalAny(model_name(m)),
           label: label.clone(),
         },
+        // TCK inputs of shapes a client library would not send: any well-formed answer will do
+        "tck_odd_input_shape" => {
+          let simple = json!({"type": "xsd:string", "text": "x", "isNil": false});
+          let (invocable, input) = match pu64(r, "n") % 10 {
+            0 => ("echo_s", json!([{"name": "s", "value": {"simple": simple, "list": {"items": [], "isNil": false}}}])),
+            1 => ("echo_p", json!([{"name": "p", "value": {"components": []}}])),
+            2 => ("echo_s", json!([{"name": "s", "value": {"simple": {"type": "xsd:string", "text": "x"}}}])),
+            3 => ("echo_s", json!([{"name": "s", "value": {"simple": simple, "unknown": [1, {"a": null}]}, "more": true}])),
+            4 => ("echo_s", json!([{"name": "s", "value": {"simple": simple}}, {"name": "s", "value": {"simple": {"type": "xsd:string", "text": "y", "isNil": false}}}])),
+            5 => ("echo_l", json!([{"name": "l", "value": {"list": {"items": [{"simple": {"isNil": true}}, {"list": {"items": [{"simple": {"type": "xsd:decimal", "text": "1", "isNil": false}}], "isNil": false}}, {"components": []}], "isNil": false}}}])),
+            6 => ("echo_s", json!({"name": "s", "value": {"simple": simple}})),
+            7 => ("echo_s", json!([{"name": "s", "value": {"simple": {"type": "xsd:string", "isNil": false}}}])),
+            8 => ("echo_p", json!([{"name": "p", "value": {"components": [{"name": "name", "value": {"simple": simple}}, {"name": "name", "value": {"simple": simple}}, {"value": {"simple": simple}}, {"name": "scores", "value": {"components": []}, "isNil": true}]}}])),
+            _ => ("echo_s", json!([{"name": "s.t u", "value": {}}, {"name": "", "value": {"simple": simple}}, {"value": {"simple": simple}}, {"name": "s"}])),
+          };
+          Built {
+            method: "POST",
+            path: "/tck/evaluate".into(),
+            content_type: js,
+            body: json!({"model": model_name(m), "invocable": invocable, "input": input}).to_string().into_bytes(),
+            op: Op::EvalAny(model_name(m)),
+            label: format!("{} shape {}", label, pu64(r, "n") % 10),
+          }
+        }
         "tck_number_with_nul" => {
           let xsd_type = ["xsd:decimal", "xsd:integer", "xsd:double"][(pu64(r, "n") % 3) as usize];
           Built {
@@ -2143,6 +2178,9 @@ pub fn loopback_pass(seed: u64) -> ExtraPass {
   pass
 }
 
+/// The literal expression of decision `many` of the alphabet models (models.rs): a list of 150 contexts.
+pub const MANY_EXPRESSION: &str = "for i in 1..150 return {\"k\": i, \"v\": [s, n * i, {\"w\": b, \"e\": {}, \"l\": []}]}";
+
 /// The literal expression of decision `odd_keys` of the alphabet models (models.rs).
 const ODD_KEYS_EXPRESSION: &str = "{\"\": s, \"a\\\"b\": s, \"1\": [[s], [], [[n, [b]]]], \"x\ty\": {\"\": []}, \"\\\\\": null, \"\u{e9}\u{4e2d}\": b, \"k\\u0001\": n, \"e\": {}, \"le\": [{}, [], {\"\": {}}]}";
 
@@ -2229,7 +2267,13 @@ fn gen_echo(rng: &mut Rng, m: String) -> Value {
     4..=5 => "n",
     6 => "b",
     7 => "snull",
-    8 => "mix",
+    8 => {
+      if rng.chance(1, 4) {
+        "many"
+      } else {
+        "mix"
+      }
+    }
     9 => "keys",
     12 => "l",
     13 | 14 => "p",
